@@ -68,7 +68,7 @@ def gen_case(rng, chk, n):
         elif r < 0.988:
             ops.append("leach")
         elif r < 0.992:
-            ops.append(rng.choice(["api", "lfree"]))
+            ops.append(rng.choice(["api", "lfree", "newf 1", "newf 2", "newf 0"]))
         else:
             ops.append("llen")
     ops += ["keys", "vals", "llen", "llast", "leach"] + (["keys2", "vals2"] if two else [])
@@ -123,6 +123,8 @@ def extra_cases():
                 "get2 106", "vals", "ins2 0 0", "get 0", "get2 0", "rem2 0", "get2 0"])
     out.append(["ins %d 1" % k for k in (5, 106, 207, 308)] + ["get 5"] + ["ins2 %d 2" % k for k in (5, 106, 207, 308)] + ["get2 5", "get 5", "rem 5", "get 5", "get2 5", "ins 5 3", "get 5", "get2 5", "rem2 5", "get2 5", "get 5"])
     out.append(["api", "ins 1 1", "lapp 1", "api", "get 1", "keys", "llen", "leach", "lfree", "api", "llen"])
+    # p_hash_table_new with its first / second allocation failing: NULL, the living tables are not touched
+    out.append(["newf 1", "newf 2", "newf 0", "newf 3", "ins 5 1", "ins2 5 2", "newf 2", "get 5", "get2 5", "newf 1", "keys", "keys2", "insf 106 3", "newf 2", "ins 106 3", "keys"])
     # a list / a chain longer than anything the random op files build (counts, walks and reversal of 150 nodes; 60 keys in one bucket)
     out.append(["lapp %d" % (i % 7) for i in range(150)] + ["llen", "llast", "leach", "lrev", "llen", "leach", "lrem 3", "llen", "lpre 9", "llast", "llen", "lfree", "llen"])
     out.append(["ins %d %d" % (5 + 101 * i, i) for i in range(60)] + ["keys", "vals", "get %d" % (5 + 101 * 59), "get 5", "rem %d" % (5 + 101 * 30), "rem 5", "rem %d" % (5 + 101 * 59), "keys", "lbv 30", "lbv 31"])
